@@ -713,6 +713,11 @@ class ChangeOfValueServices(Capability):
         if (not cancel_subscription) and (lifetime is None):
             lifetime = 0
 
+        # a subscription that does not ask for confirmed notifications gets
+        # unconfirmed ones
+        if (not cancel_subscription) and (confirmed is None):
+            confirmed = False
+
         # find the object
         obj = self.get_object_id(obj_id)
         if _debug: ChangeOfValueServices._debug("    - object: %r", obj)
@@ -795,6 +800,11 @@ class ChangeOfValueServices(Capability):
         # a subscription without a lifetime is an indefinite one
         if (not cancel_subscription) and (lifetime is None):
             lifetime = 0
+
+        # a subscription that does not ask for confirmed notifications gets
+        # unconfirmed ones
+        if (not cancel_subscription) and (confirmed is None):
+            confirmed = False
 
         # find the object
         obj = self.get_object_id(obj_id)
